@@ -157,6 +157,9 @@ mods (int x, int y) IMATH_NOEXCEPT
 //	divp(x,y) == floor (double(x) / double (y))
 //	modp(x,y) == x - y * divp(x,y)
 //
+// modp() does not form the product y * divp(x,y): for x close to
+// INT_MIN that product, x - modp(x,y), lies below INT_MIN.
+//
 
 IMATH_HOSTDEVICE constexpr inline int
 divp (int x, int y) IMATH_NOEXCEPT
@@ -168,7 +171,9 @@ divp (int x, int y) IMATH_NOEXCEPT
 IMATH_HOSTDEVICE constexpr inline int
 modp (int x, int y) IMATH_NOEXCEPT
 {
-    return x - y * divp (x, y);
+    return (x >= 0) ? ((y >= 0) ? (x % y) : (x % -y))
+                    : ((y >= 0) ? (y - 1 - (-1 - x) % y)
+                                : (-1 - y - (-1 - x) % -y));
 }
 
 //----------------------------------------------------------
